@@ -239,7 +239,7 @@ def shrink(r):
             cands = [t for t in cands if t.strip()][:32]
             if not cands:
                 break
-            res = par("fuzz", [dict(id=i, text=t) for i, t in enumerate(cands)], {}, timeout=1200)
+            res = par("fuzz", [dict(id=i, text=t, routes=[r.get("route", "ast")]) for i, t in enumerate(cands)], {}, timeout=1200)
             hit = next((x for x in sorted(res, key=lambda x: x["id"]) if signature(x) == sig), None)
             if hit:
                 text = cands[hit["id"]]
@@ -252,35 +252,67 @@ def shrink(r):
     return text
 
 
+def confirm(r):
+    """Re-run ONE input alone in a fresh interpreter (same route): the verdict of that run is the one reported.  Used for
+    every suspected hang and for every failure that touched the hang detector, so that neither a late alarm nor CPU time
+    accounted across inputs of a long-lived worker can produce a finding."""
+    job = dict(id=0, text=r.get("text"), routes=[r.get("route", "ast")], mutation=r.get("mutation", "given"))
+    if r.get("raw_hex"):
+        job["raw_hex"] = r["raw_hex"]
+    try:
+        r2 = common.run_impl("impl_c10.py", dict(kind="fuzz", jobs=[job]), timeout=600)["results"][0]
+    except Exception as e:      # the fresh run itself died (e.g. killed by the wall-clock limit): that is a hang
+        return dict(r, outcome="timeout", type="Timeout", confirm_error=str(e)[-200:])
+    r2["id"] = r["id"]
+    r2["mutation"] = r.get("mutation")
+    r2.setdefault("text", r.get("text"))
+    if r.get("raw_hex"):
+        r2.setdefault("raw_hex", r["raw_hex"])
+    return r2
+
+
 def judge(c, r, src=None):
     oc = r["outcome"]
+    if (oc == "timeout" or r.get("timeout_in_chain")) and r.get("text") is not None and not r.get("confirmed"):
+        c.hist("hang-detector:rerun-in-fresh-process")
+        r2 = confirm(r)
+        r2["confirmed"] = True
+        if r2["outcome"] != "timeout":
+            c.hist("hang-detector:not-reproduced-alone")
+        return judge(c, r2, src)
     if oc == "timeout" and r.get("type") not in (None, "Timeout"):
-        # a different exception object than the hang detector's Timeout: it is a crash, not a hang
         oc = "crash"
     c.hist("outcome:" + oc)
-    c.hist("mutation:" + r.get("mutation", "?").split("+")[0])
+    c.hist("mutation:" + r.get("mutation", "?").split("+")[0].split("@")[0])
     if oc.startswith("skip"):
         return
-    c.count(("mutant", r.get("sha")), nontrivial=oc != "ok" or "+" in r.get("mutation", "") or r.get("mutation") in ("template", "tail"))
+    for x in r.get("routes", []):
+        c.hist("route:" + x)
+    if "@" in r.get("mutation", ""):
+        c.hist("file-variant:" + r["mutation"].rsplit("@", 1)[1])
+    c.count(("mutant", r.get("sha")), nontrivial=oc != "ok" or "+" in r.get("mutation", "") or r.get("mutation", "").split("@")[0] in ("template", "tail"))
     if "veneer_restored" in r:
         c.cov["traces_validated_against_impl"] += 1
         if not r["veneer_restored"]:
             c.violation("veneer", "veneer globals differ from the initial inactive state after a failed compilation",
-                        dict(text=r.get("text"), source=src, veneer=r.get("veneer"), mutation=r.get("mutation")))
+                        dict(text=r.get("text"), source=src, veneer=r.get("veneer"), mutation=r.get("mutation"), route=r.get("route"),
+                             raw_hex=r.get("raw_hex")))
     if oc in ("ok", "syntax-error"):
         return
     rep = dict(outcome=oc, type=r.get("type"), func=r.get("func"), file=r.get("file"), msg=r.get("msg"), lineno=r.get("lineno"),
-               nlines=r.get("nlines"), mutation=r.get("mutation"), source=src, text=r.get("text"),
+               nlines=r.get("nlines"), mutation=r.get("mutation"), source=src, text=r.get("text"), route=r.get("route"),
+               routes=r.get("routes"), raw_hex=r.get("raw_hex"), cpu_s=r.get("cpu_s"),
                has_nul_byte="\x00" in (r.get("text") or ""))
     kind = {"crash": "crash", "recursion-error": "crash", "token-error": "unlocated-error", "timeout": "hang",
             "syntax-error-without-line": "error-location", "syntax-error-line-out-of-range": "error-location"}[oc]
-    what = {"crash": "an internal exception escapes the front end", "hang": "the front end exceeds the per-input CPU budget",
+    what = {"crash": "an internal exception escapes the front end", "hang": "the front end exceeds the per-input CPU budget (confirmed alone in a fresh process)",
             "unlocated-error": "a tokenizer error escapes the front end unconverted",
             "error-location": "a syntax error does not name a line of the input"}[kind]
     new = c.violation(kind, what, rep)
     if new and os.environ.get("C10_DEBUG"):
         print("DBG", json.dumps({k: v for k, v in rep.items() if k != "text"})[:500], file=sys.stderr)
-    if new and kind == "crash" and r.get("text") and not os.environ.get("C10_NOSHRINK") and not getattr(c, "_shrunk", {}).get(signature(r)):
+    if new and kind == "crash" and r.get("text") and not r.get("raw_hex") and not os.environ.get("C10_NOSHRINK") \
+            and not getattr(c, "_shrunk", {}).get(signature(r)):
         c._shrunk = getattr(c, "_shrunk", {})
         c._shrunk[signature(r)] = True
         rep["text_minimised"] = shrink(r)
@@ -302,7 +334,10 @@ def main():
         body = json.load(open(c.replay))
         case = body.get("case", {})
         if case.get("text") is not None:
-            res = par("fuzz", [dict(id=0, text=case.get("text_minimised") or case["text"], full=True)], {})
+            job = dict(id=0, text=case.get("text_minimised") or case["text"], routes=[case["route"]] if case.get("route") else None)
+            if case.get("raw_hex"):
+                job["raw_hex"] = case["raw_hex"]
+            res = par("fuzz", [job], {})
             for r in res:
                 judge(c, r)
         else:
@@ -330,13 +365,13 @@ def main():
     if os.path.isdir(cdir):
         for f in sorted(os.listdir(cdir)):
             if f.endswith(".json"):
-                jobs.append(dict(id=len(jobs), text=json.load(open(os.path.join(cdir, f)))["text"], mutation="corpus:" + f, full=True))
+                jobs.append(dict(id=len(jobs), text=json.load(open(os.path.join(cdir, f)))["text"], mutation="corpus:" + f))
     srcs = scenic_sources()
     c.cov["scenic_sources"] = len(srcs)
     n = 3000 if quick else 250000
     rng = c.rng
     for i in range(n):
-        jobs.append(dict(id=len(jobs), path=rng.choice(srcs), seed=rng.randrange(10 ** 9), extra=rng.choice([0, 0, 0, 1, 2]), full=(i % 4 == 0)))
+        jobs.append(dict(id=len(jobs), path=rng.choice(srcs), seed=rng.randrange(10 ** 9), extra=rng.choice([0, 0, 0, 1, 2])))
     res = par("fuzz", jobs, dict(cpu_budget=(80 if quick else 2100)))
     byid = {j["id"]: j for j in jobs}
     for r in sorted(res, key=lambda r: r["id"]):
